@@ -116,6 +116,9 @@ func expectDocs(docs []DocSpec) *Obs {
 				dvSet[f.Name] = true
 			}
 		}
+		if docs[i].IDDV {
+			dvSet["_id"] = true
+		}
 	}
 	for f := range dvSet {
 		o.DVFields = append(o.DVFields, f)
